@@ -54,11 +54,6 @@ Proof.
 Qed.
 
 (* whatever the order: nothing is attempted after a failed sink *)
-Fixpoint stops_at_failure (t : list effect) : bool :=
-  match t with
-  | [] => true
-  | x :: r => if is_failed_sink x then (match r with [] => true | _ => false end) else stops_at_failure r
-  end.
 Lemma publish_stops pc s : stops_at_failure (fst (publish pc s)) = true.
 Proof.
   induction pc as [|c r IH]; [reflexivity|]. rewrite publish_step. cbv zeta.
